@@ -25,7 +25,7 @@ for p in props:
         na.append({"property_id": pid, "reason": LEVEL["not_applicable"].get(pid, "check not built yet in this session; no claim is made")})
 man = {
     "version": 1,
-    "setup_cmd": "/venv/bin/python -c 'import hypothesis' 2>/dev/null || /venv/bin/pip install --no-index --find-links /opt/veriftools/wheels hypothesis",
+    "setup_cmd": "(/venv/bin/python -c 'import hypothesis' 2>/dev/null || /venv/bin/pip install --no-index --find-links /opt/veriftools/wheels hypothesis) && (/venv/bin/pip install -q --no-index --find-links /opt/veriftools/wheels --target /verif/.deps atheris >/dev/null 2>&1 || echo 'atheris not installed: coverage-guided campaigns of the thorough tier will be skipped')",
     "hooks": {
         "guard": "QUATICA_VERIF",
         "enable": "no source hooks are needed: the checks import the pure-Python sources directly from /repo's working tree (flat-module style) and observe return values, exceptions and argument hashes; QUATICA_VERIF=1 is exported by the harness but read by nothing in /repo",
